@@ -64,11 +64,28 @@ class Joint:
             lookup_preset=LookupPreset(*preset),
             params=StreamParameters(generalized_statements=True, rdf_star=True),
         )
-        adapter = (gp.GenericTriplesAdapter if cls == "triple" else gp.GenericQuadsAdapter)(popts)
+        adapter = {"triple": gp.GenericTriplesAdapter, "quad": gp.GenericQuadsAdapter,
+                   "graph": gp.GenericGraphsAdapter}[cls](popts)
         self.dec = Decoder(adapter)
         self.pending: list = []  # statements sent but not yet decoded (still in the flow)
 
+    def send_graph(self, gname, triples) -> list[str]:
+        """One GraphStream.graph() call: a (possibly empty) graph given as a whole."""
+        fails: list[str] = []
+        gg = T.to_generic(gname)
+        for t in triples:
+            self.pending.append(T.norm_st((*t, gname)))
+        for frame in self.stream.graph(gg, [T.st_to_generic(t) for t in triples]):
+            # statements decoded so far must be a prefix of what was sent
+            got = [T.norm_st(T.st_from_generic(x)) for x in self.dec.iter_rows(frame)]
+            if got != self.pending[: len(got)]:
+                return [f"frame decodes to {got}, statements sent were {self.pending}"]
+            self.pending = self.pending[len(got):]
+        return fails
+
     def send(self, st) -> list[str]:
+        if st and st[0] == "graph":
+            return self.send_graph(st[1], st[2])
         fails: list[str] = []
         g = T.st_to_generic(st)
         frame = self.stream.triple(g) if self.cls == "triple" else self.stream.quad(g)
@@ -114,14 +131,33 @@ BFS_SCOPES = {
     "dtpressure": ("dtpressure", "triple", (8, 1, 3), 2, (0, 1, 2, 3, 4, 5)),
     "odd": ("odd", "quad", (8, 1, 1), 3, (0, 1, 2, 3, 4, 5)),
     "names": ("name", "triple", (8, 1, 0), 1, (0, 1, 2, 3)),
+    "graphs": ("prefix", "graph", (8, 2, 0), 3, (0, 1)),
 }
+
+
+def graph_events(scope: str, preset, idxs) -> list:
+    tr = [t for t in (AL.triples(scope)[i] for i in idxs) if AL.fits(t, preset)]
+    names = [T.DEFAULT, T.I("http://a/x"), T.I("http://b#g"), T.I("g")]
+    evs = []
+    for g in names:
+        evs.append(("graph", g, ()))               # an empty graph
+        evs.append(("graph", g, (tr[0],)))
+        evs.append(("graph", g, (tr[1], tr[0])))
+    return evs
+
+
+def _to_list(x):
+    return [_to_list(v) for v in x] if isinstance(x, tuple) else x
 
 
 def bfs_shard(job) -> dict:
     _, name, cap = job
     scope, cls, preset, fs, idxs = BFS_SCOPES[name]
     alpha = AL.alphabet(scope, 3 if cls == "triple" else 4)
-    evs = [alpha[i] for i in idxs if AL.fits(alpha[i], preset)]
+    if cls == "graph":
+        evs = graph_events(scope, preset, idxs)
+    else:
+        evs = [alpha[i] for i in idxs if AL.fits(alpha[i], preset)]
     if len(evs) < 3:
         from mc.env import HarnessError  # noqa: PLC0415
 
@@ -134,7 +170,7 @@ def bfs_shard(job) -> dict:
         step=bfs_step,
         canon=bfs_canon,
         max_states=cap,
-        ev_json=lambda e: e if e == "flush" else list(e),
+        ev_json=lambda e: e if e == "flush" else _to_list(e),
     )
     acc.evals = res.transitions
     acc.extra = {"bfs": name, "scope": scope, "cls": cls, "preset": list(preset),
